@@ -16,7 +16,7 @@ import glob
 import os
 import re
 
-from ..match import bind_args, body_raises, calls, dispatch_chain, expected_term, returns, selects, term_of
+from ..match import bind_args, body_raises, calls, dispatch_chain, expected_term, returns, run_paths, selects, term_of
 from ..model import own_nodes, parents
 from ..terms import canon, show, walk_term
 
@@ -98,43 +98,65 @@ def _is_heur(names):
     return pred
 
 
+def _paths(fn, hnames, name):
+    return run_paths(fn, _is_heur(hnames), name)
+
+
+def _is_zero(e):
+    return isinstance(e, ast.Constant) and not isinstance(e.value, bool) and isinstance(e.value, (int, float)) and e.value == 0
+
+
 def dispatch(repo, chk):
+    """For every heuristic name the project itself documents / uses, the body of conduct_feature_ranking is evaluated with that name
+    (path evaluation: tests on the name are decided, assignments substituted): the value returned must come from a scorer, on every path."""
     fn = repo.func(IE, 'conduct_feature_ranking')
     m = fn.module
     v1, v2, args = fn.params[:3]
     hnames = {n.targets[0].id for n in own_nodes(fn.node) if isinstance(n, ast.Assign) and isinstance(n.targets[0], ast.Name) and isinstance(n.value, ast.Attribute) and n.value.attr == 'heuristic'}
-    first = next((s for s in fn.node.body if isinstance(s, ast.If)), None)
-    if first is None:
-        chk.unsure('C05.1', 'R7', fn.site(), 'dispatch chain', 'no dispatch chain in conduct_feature_ranking')
-        return
-    branches, else_body = dispatch_chain(first, _is_heur(hnames))
     found = harvest(repo)
     chk.analysed['harvested_heuristic_names'] = {k: sorted(set(v))[:4] for k, v in sorted(found.items())}
     names = sorted(n for n in found if not n.startswith('surrogate-'))
     chk.require_count('harvested non-surrogate heuristic names', len(names), 3)
-    rets = returns(fn)
-    score = rets[-1].value.id if rets and isinstance(rets[-1].value, ast.Name) else None
+    outside = None
     for name in names:
-        b = selects(branches, name)
         where = ', '.join(sorted(set(found[name]))[:3])
-        if b is None:
-            chk.bad('C05.1', 'R7', fn.site(first), f'heuristic {name!r} (used in {where})', f'the documented heuristic {name!r} reaches no scorer branch of conduct_feature_ranking: it falls to the default branch and every score silently degrades to the constant 0.0')
+        paths = _paths(fn, hnames, name)
+        if paths is None:
+            chk.unsure('C05.1', 'R7', fn.site(), f'heuristic {name!r}', 'too many tests that do not depend on the heuristic name')
             continue
-        assigns = [s for s in b.body if isinstance(s, ast.Assign) and isinstance(s.targets[0], ast.Name) and s.targets[0].id == score]
-        ok = len(assigns) == 1 and (isinstance(assigns[0].value, ast.Call) or isinstance(assigns[0].value, ast.Subscript) or name == 'Constant')
-        chk.expect(ok, 'C05.1', 'R7', fn.site(b.test), f'{name!r} -> {ast.unparse(assigns[0].value)[:80] if assigns else "?"}', f'{name!r} (used in {where}) is scored by its own branch', f'the branch selected for {name!r} does not assign the score from a scorer')
+        terms = set()
+        for assume, res in paths:
+            if res.unknown is not None:
+                chk.unsure('C05.1', 'R7', fn.site(res.unknown), f'heuristic {name!r}: {ast.unparse(res.unknown)[:80]}', 'statement outside the path vocabulary decides the score')
+                terms = None
+                break
+            if res.raised is not None or res.returned is None:
+                chk.bad('C05.1', 'R7', fn.site(res.raised) if res.raised is not None else fn.site(), f'heuristic {name!r} (used in {where})', f'the documented heuristic {name!r} reaches no scorer of conduct_feature_ranking (the call {"raises" if res.raised is not None else "returns nothing"})')
+                terms = None
+                break
+            terms.add(ast.unparse(res.returned))
+            if _is_zero(res.returned) and name != 'Constant' and not assume:
+                chk.bad('C05.1', 'R7', fn.site(), f'heuristic {name!r} (used in {where})', f'the documented heuristic {name!r} reaches no scorer branch of conduct_feature_ranking: it falls to the default branch and every score silently degrades to the constant 0.0')
+                terms = None
+                break
+        if terms is None:
+            continue
+        if len(terms) > 1:
+            outside = outside or (name, paths)
+            continue
+        chk.ok('C05.1', 'R7', fn.site(), f'{name!r} -> {sorted(terms)[0][:80]}', f'{name!r} (used in {where}) is scored by its own branch')
     for sname in sorted(n for n in found if n.startswith('surrogate-')):
-        if selects(branches, sname) is None:
+        paths = _paths(fn, hnames, sname) or []
+        if any(res.returned is not None and _is_zero(res.returned) for _, res in paths):
             chk.note(f'surrogate heuristic {sname!r} (used in {sorted(set(found[sname]))[:2]}) reaches no branch; the surrogate family is excluded by the statement')
-    # the score is decided by the dispatch alone: single return at the end, nothing but initialisation before the chain
-    from ..match import is_noise_stmt
-    pre = [s for s in fn.node.body if s.lineno < first.lineno and not is_noise_stmt(s)]
-    ok_pre = all(isinstance(s, ast.Assign) and isinstance(s.targets[0], ast.Name) and (s.targets[0].id in hnames or (s.targets[0].id == score and isinstance(s.value, ast.Constant))) for s in pre)
-    ok_ret = len(rets) == 1 and fn.node.body[-1] is rets[0]
-    post = [s for s in fn.node.body if s.lineno > first.end_lineno and s is not rets[-1] and not is_noise_stmt(s)] if rets else []
-    chk.expect(ok_pre and ok_ret and not post, 'C05.1b', 'R1', fn.site(pre[0]) if pre and not ok_pre else fn.site(rets[0]) if rets else fn.site(), 'score = dispatch(heuristic); return score',
-               'nothing but the dispatch decides the emitted score', 'the score is decided outside the heuristic dispatch (early exit, pre- or post-processing of the score): for some inputs the emitted value is not the selected heuristic applied to the two columns')
-    return branches
+    # the score is decided by the heuristic name alone
+    if outside is not None:
+        name, paths = outside
+        t = next((a[0][0] for a, r in paths if a), None)
+        chk.bad('C05.1b', 'R1', fn.site(t) if t is not None else fn.site(), f'{name!r}: ' + ' | '.join(sorted({ast.unparse(r.returned)[:50] for _, r in paths if r.returned is not None})),
+                'the score is decided outside the heuristic dispatch (early exit, pre- or post-processing of the score): for some inputs the emitted value is not the selected heuristic applied to the two columns')
+    else:
+        chk.ok('C05.1b', 'R1', fn.site(), 'one returned expression per heuristic name', 'nothing but the heuristic name decides which expression is returned')
 
 
 def scorers(repo, chk):
@@ -142,35 +164,36 @@ def scorers(repo, chk):
     m = fn.module
     v1, v2, args = fn.params[:3]
     hnames = {n.targets[0].id for n in own_nodes(fn.node) if isinstance(n, ast.Assign) and isinstance(n.targets[0], ast.Name) and isinstance(n.value, ast.Attribute) and n.value.attr == 'heuristic'}
-    first = next((s for s in fn.node.body if isinstance(s, ast.If)), None)
-    if first is None:
-        return
-    branches, else_body = dispatch_chain(first, _is_heur(hnames))
+    E = lambda src: expected_term(m, src)
+    want = {
+        'sklearn_MI': [E(f'{IE}.sklearn_MI({v1}, {v2})')],
+        'numba_mi': [E(f'{IE}.numba_mi({v1}, {v2}, {args}.heuristic, {args}.mi_stratified_sampling_ratio)')],
+        'max_pair_coverage': [E(f'{COV}.max_pair_coverage({v1}, {v2})')],
+        'pearsonr': [E(f'scipy.stats.pearsonr({v1}, {v2})[0]'), E(f'scipy.stats.pearsonr({v1}, {v2}).statistic'), E(f'scipy.stats.pearsonr({v1}, {v2}).correlation')],
+        'sklearn_mi_adj': [E(f'{IE}.sklearn_mi_adj({v1}, {v2})')],
+    }
     for name, (callee, corr) in EXPECT.items():
-        b = selects(branches, name)
-        if b is None:
-            if name in ('MI', 'MI-numba-randomized', 'max-value-coverage', 'Constant', 'MI-numba-3mr', 'AMI', 'correlation-Pearson'):
-                chk.bad('C05.2', 'R7', fn.site(first), f'{name!r}', f'heuristic {name!r} named by the statement has no branch')
+        paths = _paths(fn, hnames, name)
+        if not paths or any(r.unknown is not None or r.returned is None for _, r in paths):
+            if paths and any(r.raised is not None for _, r in paths):
+                chk.bad('C05.2', 'R7', fn.site(), f'{name!r}', f'heuristic {name!r} named by the statement has no branch (the call raises)')
+            else:
+                chk.unsure('C05.2', 'R7', fn.site(), f'{name!r}', 'the returned expression could not be determined for this name')
             continue
-        val = next((s.value for s in b.body if isinstance(s, ast.Assign)), None)
-        if name == 'Constant':
-            chk.expect(isinstance(val, ast.Constant) and val.value == 0, 'C05.2', 'R15', fn.site(b.test), f"'Constant' -> {ast.unparse(val) if val is not None else None}", 'Constant scores 0', 'Constant must score the literal 0')
-            continue
-        call = val
-        if isinstance(call, ast.Subscript):
-            call = call.value
-        d = m.dotted(call.func) if isinstance(call, ast.Call) else None
-        want = {'sklearn_MI': f'{IE}.sklearn_MI', 'numba_mi': f'{IE}.numba_mi', 'max_pair_coverage': f'{COV}.max_pair_coverage', 'pearsonr': 'scipy.stats.pearsonr', 'sklearn_mi_adj': f'{IE}.sklearn_mi_adj'}[callee]
-        ok = d == want and isinstance(call, ast.Call) and len(call.args) >= 2 and ast.unparse(call.args[0]) == v1 and ast.unparse(call.args[1]) == v2
-        if callee == 'pearsonr':
-            ok = ok and isinstance(val, ast.Subscript) and ast.unparse(val.slice) == '0'
-        if callee == 'numba_mi':
-            ok = ok and len(call.args) >= 3 and _is_heur(hnames)(call.args[2])
-        chk.expect(ok, 'C05.2', 'R6', fn.site(b.test), f'{name!r} -> {ast.unparse(val)[:90] if val is not None else None}', f'{name!r} is scored by {callee}(first, second)', f'{name!r} must be scored by {want}(vector_first, vector_second{", heuristic, ratio" if callee == "numba_mi" else ""})')
+        for assume, res in paths[:1]:
+            t = term_of(fn, res.returned, inline=False)
+            shown = f'{name!r} -> {ast.unparse(res.returned)[:90]}'
+            if name == 'Constant':
+                chk.expect(_is_zero(res.returned), 'C05.2', 'R15', fn.site(), shown, 'Constant scores 0', 'Constant must score the literal 0')
+                continue
+            if _is_zero(res.returned):
+                chk.bad('C05.2', 'R7', fn.site(), shown, f'heuristic {name!r} named by the statement has no branch')
+                continue
+            wl = want[callee]
+            chk.expect(t in wl, 'C05.2', 'R6', fn.site(), shown, f'{name!r} is scored by {callee}(first, second)', f'{name!r} must be scored by {show(wl[0])[:140]}')
     # helper scorers
     s1 = repo.func(IE, 'sklearn_MI')
     t = [term_of(s1, r.value, inline=True) for r in returns(s1)]
-    E = lambda s: expected_term(m, s)
     a, b = s1.params[:2]
     chk.expect(t == [E(f'sklearn.feature_selection.mutual_info_classif({a}.reshape(-1, 1), {b}.reshape(-1), discrete_features=True)[0]')], 'C05.2b', 'R15', s1.site(), ast.unparse(returns(s1)[0]) if returns(s1) else '', "MI = plug-in MI of discrete columns (discrete_features=True), first column as feature, second as target",
                'sklearn_MI must be mutual_info_classif(first.reshape(-1,1), second.reshape(-1), discrete_features=True)[0]')
@@ -178,7 +201,12 @@ def scorers(repo, chk):
     a, b = s2.params[:2]
     t = [term_of(s2, r.value, inline=True) for r in returns(s2)]
     chk.expect(t in ([E(f'sklearn.metrics.adjusted_mutual_info_score({a}, {b})')], [E(f'sklearn.metrics.adjusted_mutual_info_score({b}, {a})')]), 'C05.2c', 'R15', s2.site(), ast.unparse(returns(s2)[0]) if returns(s2) else '', 'AMI = adjusted_mutual_info_score of the two columns', 'sklearn_mi_adj must be adjusted_mutual_info_score(first, second)')
-    chk.expect(not body_raises(else_body) and else_body is not None, 'C05.2d', 'R7', fn.site(first), 'else: score = 0.0 (warning)', 'unknown names degrade to 0 with a warning (why every documented name must have a branch)', 'default branch changed')
+    paths = _paths(fn, hnames, 'no-such-heuristic') or []
+    dflt = [r for _, r in paths]
+    if dflt and all((r.returned is not None and _is_zero(r.returned)) or r.raised is not None for r in dflt):
+        chk.ok('C05.2d', 'R7', fn.site(), "unknown name -> " + ('0.0 (warning)' if dflt[0].raised is None else 'raise'), 'unknown names degrade to 0 with a warning or are rejected (why every documented name must have a branch)')
+    else:
+        chk.unsure('C05.2d', 'R7', fn.site(), 'default branch', 'the result for an unknown heuristic name could not be determined')
 
 
 # -- 3 --------------------------------------------------------------------------------------
@@ -301,20 +329,39 @@ def coded_columns(repo, chk):
             a, b = [e.id for e in st.targets[0].elts]
             ok2 = [ast.unparse(x) for x in c[0].args] == [a, b, args]
     chk.expect(ok2, 'C05.4b', 'R6', fn.site(c[0]) if c else fn.site(), ast.unparse(c[0]) if c else '', 'the scorer receives (first vector, second vector) in that order', 'conduct_feature_ranking must receive the two vectors in the order generate_data_for_ranking returned them')
-    # worker closure passes the coded frame
-    mrg = repo.func('outrank.core_ranking', 'mixed_rank_graph')
-    inner = [f for q, f in mrg.module.funcs.items() if q.startswith('mixed_rank_graph.')]
-    okw = False
-    for f in inner:
-        for cc in calls(f):
-            if mrg.module.dotted(cc.func) == f'{IE}.get_importances_estimate_pairwise':
-                ba = bind_args(cc, fn)
-                coded = {n.targets[0].id for n in own_nodes(mrg.node) if isinstance(n, ast.Assign) and isinstance(n.targets[0], ast.Name) and ('.cat.codes' in ast.unparse(n.value) or ('factorize' in ast.unparse(n.value) and 'sort=True' in ast.unparse(n.value)))}
-                fact = [n for n in own_nodes(mrg.node) if isinstance(n, ast.Assign) and 'factorize' in ast.unparse(n.value) and 'sort=True' not in ast.unparse(n.value)]
-                if fact:
-                    chk.bad('C05.4d', 'R6', mrg.site(fact[0]), ast.unparse(fact[0])[:140], 'columns are coded by order of first appearance (pd.factorize without sort), not by the category coding (.cat.codes: codes in sorted category order): heuristics that use the numeric codes (correlation-Pearson) no longer equal the heuristic evaluated on the category-coded columns')
-                okw = ast.unparse(ba.get(comb, ast.Constant(None))) == f.params[0] and isinstance(ba.get(frame), ast.Name) and ba.get(frame).id in coded and isinstance(ba.get(args), ast.Name)
-    chk.expect(okw, 'C05.4c', 'R6', mrg.site(), 'get_importances_estimate_pairwise(combination, reference_model_features, args, tmp_df=tmp_df)', 'each worker call scores its own combination on the coded frame', 'the worker closure must pass its combination and the coded frame')
+    # the worker bound in mixed_rank_graph scores its own combination on the category-coded frame
+    from .common import column_coding, mrg_model
+    M = mrg_model(repo)
+    mrg = M.fn
+    done = set()
+    for p in M.paths:
+        if p.heuristic == 'Constant':
+            continue
+        wb = M.worker_binding(p) if p.res.unknown is None else None
+        if wb is None:
+            if 'unres' not in done:
+                done.add('unres')
+                chk.unsure('C05.4c', 'R6', mrg.site(), 'worker handed to the pool', 'the callable handed to the pool could not be resolved to a call of get_importances_estimate_pairwise')
+            continue
+        key = ' | '.join(f'{k}={ast.unparse(v)[:60]}' for k, v in sorted(wb.items()) if isinstance(v, ast.AST) and k != '__site__')
+        if key in done:
+            continue
+        done.add(key)
+        site = mrg.site(wb['__site__']) if hasattr(wb.get('__site__'), 'lineno') else mrg.site()
+        okc = wb.get('__elem__') == comb and isinstance(wb.get(args), ast.Name) and wb[args].id == mrg.params[1]
+        chk.expect(okc, 'C05.4c', 'R6', site, key[:160], 'each worker call scores its own combination with the run configuration', 'the worker must pass the mapped combination as `combination` and the run configuration as `args`')
+        if frame not in wb:
+            chk.bad('C05.4c', 'R6', site, key[:160], 'the worker call does not pass the coded frame')
+            continue
+        kind, detail = column_coding(repo, mrg, wb[frame])
+        if kind in ('category', 'factorize-sorted'):
+            chk.ok('C05.4d', 'R6', site, ast.unparse(wb[frame])[:140], f'the scorers read the category-coded columns ({kind})')
+        elif kind == 'factorize':
+            chk.bad('C05.4d', 'R6', site, ast.unparse(wb[frame])[:140], 'columns are coded by order of first appearance (pd.factorize without sort), not by the category coding (.cat.codes: codes in sorted category order): heuristics that use the numeric codes (correlation-Pearson) no longer equal the heuristic evaluated on the category-coded columns')
+        elif ast.unparse(wb[frame]) == mrg.params[0]:
+            chk.bad('C05.4c', 'R6', site, ast.unparse(wb[frame])[:140], 'the worker closure must pass its combination and the coded frame (it passes the uncoded batch frame)')
+        else:
+            chk.unsure('C05.4d', 'R6', site, ast.unparse(wb[frame])[:140], f'the coding of the frame handed to the workers was not recognised: {detail}')
 
 
 def _replace(term, what, by):
